@@ -67,6 +67,23 @@ CLAIMED = {
         "populated area return a fresh empty object and call nothing else. Coordinate values, ranges and filters are not decided.",
         "Trusted: Element.clone deep-copies (R10c); maps consistent with the XML (C02).",
         "DESIGN.md §4 C08"),
+    "C09": (
+        "text-conservation rules: slice-tiling and def-use to sinks at every cut site; slot-discipline extraction on is_text branch pairs; structural checks of tail preservation in delete and of the append order in the strip functions",
+        "Partial, structural. Decides the mechanism of every insertion and removal: at the four places where a text node's string is cut, the "
+        "slices chain [:a][a:b][b:] and each piece reaches a .text/.tail store or the wrapped builder; set_span/set_link place both match and tail; "
+        "the text before the new element is written back into the slot the node came from and the element is placed first child / next sibling "
+        "accordingly; Element.delete(keep_tail) moves the tail into prev.tail or parent.text on every path; _strip_tags/strip_tags append text, "
+        "children and tail in order. Whether the offset/regex addressed the right substring and atomicity of two-step insertions are not decided.",
+        "Trusted: lxml text/tail model; Element.__append(str) semantics.",
+        "DESIGN.md §4 C09"),
+    "C10": (
+        "aliasing and state-coverage analysis of every clone implementation: by-value copy of list/dict state, _do_init control dependence of cache rebuilds, lazily-loaded vs pre-loaded packaging table, reset/copy coherence of derived caches",
+        "Partial, structural. Decides that clone overrides copy lists/dicts by value and carry the coordinates; that Table/Row rebuild caches "
+        "for re-wrapped nodes; that Element.clone is from_tag(deepcopy(node)); that Container.clone pre-loads every packaging get_part loads "
+        "lazily before its deepcopy and detaches the clone from the path; that Document.clone flushes the parsed parts into the cloned container; "
+        "and that XmlPart.clone never keeps a cached root while resetting its tree. Independence beyond the enumerated state is not decided.",
+        "Trusted: copy.deepcopy of lxml trees and of the bytes dict.",
+        "DESIGN.md §4 C10"),
     "C11": (
         "interprocedural effect analysis of Document.save under all flag constants; freshness check at pretty_indent call sites; control-dependence analysis inside pretty_indent; TEXT_CONTENT table comparison with the registry and a frozen ODF schema table",
         "Partial, structural. Decides that Document.save (pretty None/True/False), Container.save and the XmlPart serialisers reach no write into "
